@@ -230,6 +230,19 @@ def _lib_store(st, be, op, r=None):
 
 # decoding side ---------------------------------------------------------------------------
 
+class _Any:
+    """Expected value that is not compared (the consumption still is)."""
+    def __eq__(self, other):
+        return True
+
+    def __ne__(self, other):
+        return False
+
+    def __repr__(self):
+        return '<any>'
+
+
+ANY = _Any()
 OVER = ('over',)
 UNDEF = ('undef',)
 
@@ -345,6 +358,15 @@ def model_decode(st, se, op):
         if not refs:
             return OVER
         if t == 'dict':
+            if st.cells[refs[0]]['twin'].special:
+                # a dictionary field whose root arrived as an exotic cell (pruned in a proof, a library reference): there is nothing
+                # to compare the VALUE with, but the field still is one bit and one reference - what follows it must be read from
+                # the right place
+                return ('ok', ANY, 1, 1)
+            if getattr(st, 'dict_width', {}).get(refs[0]) != n:
+                # a cell that was not stored as a dictionary of this key width: reading it as one is not 'loading back what was
+                # stored' (and a non-canonical reading of its bits is C10's subject) - the value is not compared
+                return UNDEF
             try:
                 parsed = hashmap.parse_hashmap(st.cells[refs[0]]['twin'], n)
             except Exception:
@@ -577,7 +599,10 @@ class BuildWorld(HistoryWorld):
         need_aux = max(0, 3 - len(st.cells))
         for _ in range(need_aux + (rng.random() < 0.3)):
             q.append(self._aux_cell_op(st, rng))
-        ncells_after = len(st.cells) + sum(1 for o in q if o['op'] in ('aux_cell', 'aux_dict'))
+        if rng.random() < 0.25:
+            # an exotic cell among the cells that can be referenced (optional references and dictionaries may point at one)
+            q.append({'op': 'aux_pruned', 'h': bytes(rng.getrandbits(8) for _ in range(32)).hex(), 'd': rng.choice([0, 1, 5, 300])})
+        ncells_after = len(st.cells) + sum(1 for o in q if o['op'] in ('aux_cell', 'aux_dict', 'aux_pruned'))
         q.append({'op': 'new_builder'})
         bidx = len(st.builders)
         room_bits, room_refs = 1023, 4
@@ -599,7 +624,11 @@ class BuildWorld(HistoryWorld):
                 for _ in range(rng.randint(1, 4)):
                     m[rng.getrandbits(n)] = rng.getrandbits(16)
                 pos = max(i for i, o in enumerate(q) if o['op'] == 'new_builder' and True)
-                q.insert(pos, {'op': 'aux_dict', 'n': n, 'm': sorted([a, b] for a, b in m.items()), 'vw': 16})
+                if rng.random() < 0.15:
+                    # ... or a dictionary whose root is an exotic cell (what a proof holds where a dictionary was pruned)
+                    q.insert(pos, {'op': 'aux_pruned', 'h': '%064x' % rng.getrandbits(256), 'd': rng.choice([0, 1, 7, 300])})
+                else:
+                    q.insert(pos, {'op': 'aux_dict', 'n': n, 'm': sorted([a, b] for a, b in m.items()), 'vw': 16})
                 op['c'] = ncells_after
                 op['kn'] = n
                 ncells_after += 1
@@ -934,7 +963,10 @@ class BuildWorld(HistoryWorld):
     def op_aux_dict(self, st, op, ctx):
         m = {k: v for k, v in op['m']}
         twin = hashmap.build_hashmap(m, op['n'], lambda v: (tlb.enc_uint(v, op['vw']), ()))
-        st.add_cell(lib_cell_from_rcell(twin), twin)
+        h = st.add_cell(lib_cell_from_rcell(twin), twin)
+        if not hasattr(st, 'dict_width'):
+            st.dict_width = {}
+        st.dict_width[h] = op['n']
 
     def op_plain_cell(self, st, op, ctx):
         """Cell built directly from a plain bitarray (not TvmBitarray), then parsed."""
@@ -966,7 +998,9 @@ class BuildWorld(HistoryWorld):
         if not ok:
             ok, c = call(Cell, tvm_bits(twin.bits), [], 1)
         if not ok:
-            return
+            # the pool must grow by exactly one cell (later operations name cells by index): an ordinary stand-in
+            twin = RCell('1')
+            c = Cell(tvm_bits('1'), [], -1)
         ctx.probe('pruned-branch-recording-depth-%s' % ('1023' if op['d'] == 1023 else '1021-1022' if op['d'] >= 1021 else 'small'))
         st.add_cell(c, twin)
 
